@@ -166,7 +166,14 @@ def handle_quic_packet(packet: Packet, keylog, quic_sessions: list[QuicSession],
         else:
             # match by checking all known cid lengths for session
             # longest first, in a fixed order; a zero-length CID matches every packet and identifies nothing
-            for cid in sorted(session.client_cids | session.server_cids, key=lambda c: (-len(c), c)):
+            candidates = session.client_cids | session.server_cids
+            if session.matches_session_dgram(packet.ip_src, packet.ip_dst, packet.sport, packet.dport):
+                # on the session's own address pair the datagram can only carry a CID chosen by its receiver
+                if packet.ip_src == session.client_ip and packet.sport == session.client_port:
+                    candidates = session.server_cids
+                else:
+                    candidates = session.client_cids
+            for cid in sorted(candidates, key=lambda c: (-len(c), c)):
                 if len(cid) > 0 and cid == packet_payload[1:1 + len(cid)]:
                     session.handle_packet(packet, cid, quic_version)
                     return
